@@ -125,7 +125,16 @@ def mutate_attr(
 
     # If not inplace, copy before writing new value for attribute
     if not (inplace or metadata and metadata.do_not_copy):
+        original = obj
         obj = copy.deepcopy(obj)
+        if (
+            value is getattr(original, "__dict__", {}).get(attr, MISSING)
+            and attr in getattr(obj, "__dict__", {})
+        ):
+            # The receiver's own current value is being "assigned" (e.g. by
+            # `update_<attr>()` with nothing to update): keep the copy's own
+            # copy of it rather than sharing the object with the receiver.
+            value = obj.__dict__[attr]
 
     # Perform actual mutation
     try:
